@@ -12,6 +12,11 @@
 (*               relationships on either end (other type, other direction, same  *)
 (*               type to another node), then ONE plain DELETE naming a node and  *)
 (*               some, all or none of its relationships, the names in any order  *)
+(*   Mode "TYPED" (C04) EVERY sequence CREATE (:A {k: v0}) ; <write k = v1> ;       *)
+(*               <write k = v2> with v over Integer 1, 2 and Float 1.0, 2.0 and    *)
+(*               the write one of SET n.k = v, SET n += {k: v}, MERGE (n:A) ON    *)
+(*               MATCH SET n.k = v, MERGE (n:B) ON CREATE SET / ON MATCH SET:     *)
+(*               a stored value is observed WITH its type (tokens "i2" / "f2")    *)
 (*   Mode "C04"  sequences over the whole write fragment, no constraints         *)
 (*   Mode "HUB"  (C04) EVERY sequence of: a hub :A, 3..5 targets :B, one           *)
 (*               relationship hub->target per target in varying orders, the      *)
@@ -185,6 +190,16 @@ C04Stmts ==
                 W(MatchWith(NA), Set(<<SetL("B")>>), <<>>)}
           ELSE {})
 
+\* ------------------------------------------------------------------ TYPED family (C04)
+\* "f1" / "f2" are the Floats 1.0 / 2.0: numerically equal to "i1" / "i2", different values of a different type
+TypedVals == {"i1", "f1", "i2", "f2"}
+TypedStmts ==
+    IF hist = <<>> THEN {W(NoSrc, Create(NP(<<"A">>, Lit(v), None)), <<>>) : v \in TypedVals}
+    ELSE UNION {{W(Match(NA), Set(<<SetP("k", Lit(v))>>), <<RetProp("n", "k")>>),
+                 W(Match(NA), Set(<<SetM(Lit(v), None)>>), <<>>),
+                 W(NoSrc, Merge(NA, <<>>, <<SetP("k", Lit(v))>>), <<RetProp("n", "k")>>),
+                 W(NoSrc, Merge(NB, <<SetP("k", Lit(v))>>, <<SetP("k", Lit(v))>>), <<>>)} : v \in TypedVals}
+
 \* ------------------------------------------------------------------ HUB family (C04)
 \* the state of a script is read off the graph and the history; phase = 0 until the first deletion, then 1 + deletions
 HubT(x) == NP(<<"B">>, Lit(x), None)
@@ -224,6 +239,7 @@ Candidates ==
       [] Mode = "C05" -> IF phase = 0 THEN C05Setup \cup (IF hist = <<>> THEN {} ELSE C05Faulty) ELSE {}
       [] Mode = "C04" -> C04Stmts
       [] Mode = "HUB" -> HubStmts
+      [] Mode = "TYPED" -> TypedStmts
       [] Mode = "C05DEL" -> DelStmts
 IsFaulty(st) == \/ Mode = "C05" /\ st.kind = "write" /\ st.src.kind # "none"     \* (= st \in C05Faulty, without building the set)
                 \/ Mode = "C05DEL" /\ st.w.kind = "deletemany"
